@@ -389,12 +389,19 @@ func (fg *FunctionGenerator) FromList(items []Value) Value {
 }
 
 func (fg *FunctionGenerator) AccessList(list Value, index Value) (Value, error) {
+	return fg.AccessListStack(funcGen.NewEmptyStack[Value](), list, index)
+}
+
+// AccessListStack implements funcGen.ListHandlerStack. The list is evaluated
+// by using a stack derived from the given stack, so a recursion via the
+// evaluation of the list is detected by the recursion guard.
+func (fg *FunctionGenerator) AccessListStack(st funcGen.Stack[Value], list Value, index Value) (Value, error) {
 	if l, ok := list.ToList(); ok {
 		if i, ok := index.(Int); ok {
 			if i < 0 {
 				return nil, fmt.Errorf("negative list index")
 			} else {
-				items, err := l.ToSlice(funcGen.NewEmptyStack[Value]())
+				items, err := l.ToSlice(st.Derive())
 				if err != nil {
 					return nil, err
 				}
